@@ -103,7 +103,14 @@ func (f *frame) call(t *ssa.Call) {
 	why := "unspecified callee " + funcDisplayName(callee)
 	if !inModule && isPureExternal(callee) {
 		x.note("%s: result unconstrained, assumed to terminate without panic and without writing memory visible to the caller", why)
+		before := f.cur.heap.next
+		nx := x.S.Declare("next", SInt)
+		x.S.Assert(IntLt(nx, IntConst(1<<39)))
+		x.S.Assert(IntLe(before, nx))
+		f.cur.heap = x.H.WithNext(f.cur.heap, nx)
 		res := f.setFreshResult(t)
+		// slices returned by these library functions are freshly allocated (or nil)
+		f.assumeFreshSlices(t.Type(), res.T, before)
 		if callee.Name() == "EncodeToString" && len(args) > 0 && len(res.T) == 1 {
 			// every textual encoding is at least as long as its input
 			src := args[len(args)-1]
@@ -326,6 +333,9 @@ func (ctx *EvalCtx) evalModTargets(mods []ast.Expr) (out []modTarget, err error)
 			switch u := base.Typ.Underlying().(type) {
 			case *types.Slice:
 				out = append(out, modTarget{wholeArr: true, arrRef: base.T[0], elem: u.Elem()})
+			case *types.Pointer:
+				// pointer to an array: the array object
+				out = append(out, modTarget{loc: ctx.X.locOf(base, u.Elem())})
 			default:
 				// array field inside an object: treat the whole field as modified
 				l, e2 := ctx.evalLoc(n.X)
@@ -868,4 +878,19 @@ func inlinable(fn *ssa.Function) bool {
 	}
 	inlinableCache[fn] = ok
 	return ok
+}
+
+// assumeFreshSlices: every slice among the leaves was allocated at or after `since` (or is nil).
+func (f *frame) assumeFreshSlices(t types.Type, vals []Term, since Term) {
+	switch u := t.Underlying().(type) {
+	case *types.Slice:
+		f.assume(Or(Eq(vals[0], IntConst(0)), IntLe(since, vals[0])))
+	case *types.Tuple:
+		lo := 0
+		for i := 0; i < u.Len(); i++ {
+			n := nLeaves(u.At(i).Type())
+			f.assumeFreshSlices(u.At(i).Type(), vals[lo:lo+n], since)
+			lo += n
+		}
+	}
 }
